@@ -283,6 +283,38 @@ func c12Producer(r *Run, t *tape.Tape) {
 				return
 			}
 		}
+		// ... and nothing appears that neither the base header nor this call's
+		// payload description gave (alg aside, which Sign1 fills in): what an
+		// earlier call - successful or failed - was given stays with that call
+		if h.RawProtected == nil || len(h.RawProtected) == 0 {
+			r.Check()
+			for i := 0; i+1 < len(m.ProtMap.Elems); i += 2 {
+				k := m.ProtMap.Elems[i]
+				if v, ok := k.Int64(); ok && k.IsInt() {
+					if v == refcose.LAlg || v == refcose.LHashAlg || (v == refcose.LPreimageCT && p.PreimageContentType != nil) || (v == refcose.LPayloadLoc && p.Location != "") {
+						continue
+					}
+				}
+				inBase := false
+				for bk := range h.Protected {
+					var lbl *refcbor.Item
+					if v, ok := asInt64(bk); ok {
+						lbl = refcbor.Int(v)
+					} else if sv, ok := bk.(string); ok {
+						lbl = refcbor.Tstr(sv)
+					} else {
+						continue
+					}
+					if bytes.Equal(refcbor.CanonicalBytes(k), refcbor.CanonicalBytes(lbl)) {
+						inBase = true
+					}
+				}
+				if !inBase {
+					r.Fail("producer-invents-protected-parameter", "the envelope's protected header carries label %s = %s, which neither the base header nor this call's payload description gave (call %d of a series sharing the base headers)\nbase: %s\nenvelope: %s", refcbor.Diag(k), refcbor.Diag(m.ProtMap.Elems[i+1]), c, class, hexShort(env))
+					return
+				}
+			}
+		}
 		if m.Payload.Major != refcbor.MBstr || !bytes.Equal(m.Payload.Data, p.HashValue) {
 			r.Fail("producer-payload-not-hash-value", "payload %s, hash value %x", refcbor.Diag(m.Payload), p.HashValue)
 		}
